@@ -9,10 +9,10 @@ PROP = {
     "rule": "case = (workspace, config): workspace = main file + main file with ---@diagnostic enable + ---@meta file + file under a library root "
             "(disjoint or nested root), programs = 3-9 units of trigger snippets / generated statements / harvested test snippets; "
             "config = generated diagnostics.{disable,enables,severity,globals,globalsRegex,enable} parsed from JSON by serde into Emmyrc, applied "
-            "before indexing or by update_config afterwards; 5 configs per workspace; distinct = FNV of config JSON + file texts; "
+            "before indexing or by update_config afterwards; 5 configs per workspace (quick: 16 x 1200 workspaces, thorough: 16 x 40000); baselines are taken three times and codes whose diagnostics differ between identical runs are left out for that workspace; a violation must repeat in three evaluations; distinct = FNV of config JSON + file texts; "
             "non-trivial = all-codes baseline has >= 8 diagnostics and the config has >= 2 entries",
-    "min_nontrivial": {"quick": 3000, "thorough": 150000},
-    "max_secs": {"quick": 70, "thorough": 900},
+    "min_nontrivial": {"quick": 25000, "thorough": 1000000},
+    "max_secs": {"quick": 50, "thorough": 900},
     "require_clauses": ["a:disable-of-firing-code", "a:file-enable-beats-disable", "b:enables-of-firing-code", "c:severity-of-firing-code",
                         "d:globals-hit", "d:globalsRegex-hit", "e:meta-file-silent", "e:library-file-silent", "f:enable-false",
                         "std-files-silent", "late-config-switch"],
